@@ -8,6 +8,8 @@ CONSTANTS
   FixDone = TRUE
   FixPublish = FALSE
   FixStats = TRUE
+  AtomicAdd = TRUE
+  TakeRegistry = TRUE
   Det = FALSE
 INVARIANTS TypeOK NoStuckStop AfterStopAllReleased LimitRespected ConnStatsConserved GaugeNonNegative
 PROPERTIES StopReturns DrainReturns DrainKeepsEstablished DrainStopsAccepting UnderLimitServed
